@@ -14,33 +14,71 @@ P = {'id': 'C09',
               'sorted_uint_vec_get',
               'sorted_uint_vec_get2',
               'sorted_uint_vec_get_block',
-              'sorted_uint_vec_build_only_if'],
+              'sorted_uint_vec_build_only_if',
+              'intvec_write_bits',
+              'intvec_read_bits',
+              'intvec_any_strategy',
+              'intvec_analysis_widths_cover',
+              'intvec_construct_get',
+              'uintvector_any_strategy',
+              'uintvector_get_build',
+              'uintvector_push_equals_bulk',
+              'min0_build_from_u32_get',
+              'min0_build_from_i32_get',
+              'min0_push_back_all_paths',
+              'min0_push_all_get',
+              'zip_push_get'],
  'trusted': ['modelled (M+S): src/containers/uint_vec_min0.rs (compute_uintbits, compute_mem_size, get, set/set_uint_bits single-word path, new, resize, '
              'push_back all three paths, build_from_usize) with the byte vector represented as (length, little-endian number); '
              'src/containers/zip_int_vec.rs (new, get, set, build_from_usize/u32, push_back, resize) on top of it; '
              'src/blob_store/sorted_uint_vec.rs (SortedUintVecConfig::validate, builder push/finish/compress_values/store_bits_static, '
              'get/get2/get_unchecked/get_block_min_val/get_block_delta/extract_bits portable and BMI2 paths/get_block sequential and AVX2 paths) '
-             'with index and data each as (length, little-endian number)',
-             'spec-only cells (direct oracle, no mechanism model): IntVec<u8..u64,i8..i64> x from_slice/from_slice_bulk/from_slice_bulk_simd, '
-             'UintVector build_from/push, UintVecMin0::build_from_i32/u32',
+             'with index and data each as (length, little-endian number); '
+             'src/containers/specialized/int_vec.rs (PackedInt::to_u64/from_u64 for u8..u64 and i8..i64, BitOps::compute_bit_width/extract_bits, '
+             'SimdOps::analyze_range_bulk(_optimized), fast_sorted_check, detect_uniform_delta, analyze_delta_bulk/analyze_delta, '
+             'analyze_small_dataset_strategy, analyze_fast_strategy, analyze_min_max, analyze_block_based, analyze_optimal_strategy with the '
+             'estimated sizes, write_bits both paths, write_bits_bulk, read_bits incl. the ninth byte, compress_raw/min_max/delta/block_based and '
+             'their *_bulk_simd counterparts incl. the byte-aligned copies, get_raw/get_min_max/get_delta/get_block_based, get, from_slice, '
+             'from_slice_bulk, from_slice_bulk_simd with its size dispatch)',
+             'src/containers/specialized/uint_vector.rs (calculate_run_ratio, estimate_run_length_size, compute_compressed_size, should_compress, '
+             'analyze_optimal_strategy, compress_raw/min_max_bit_packed/run_length, write_bits_fast both paths, read_bits_fast, get_raw/get_min_max_bit_packed/'
+             'get_run_length, get with pending values, push, quick_append, recompress_all, build_from); UintVecMin0::build_from_u32/build_from_i32 on top of the modelled new/set',
+             'spec-only cells (direct oracle, no mechanism model): none',
              'not modelled: the byte-wise slow path of set_uint_bits (reachable only for widths > 58, which is the recorded finding); '
-             'src/containers/specialized/int_vec/int_vec_simd.rs is not compiled into the crate (int_vec.rs declares an inline module of the same name), so nothing of it can run'],
+             'src/containers/specialized/int_vec/int_vec_simd.rs is not compiled into the crate (int_vec.rs declares an inline module of the same name), so nothing of it can run; '
+             'IntVec functions no constructor reaches (compress_with_bulk_strategy and its non-SIMD bulk writers, compress_with_fast_strategy, analyze_bulk_fast_strategy, '
+             'write_bits_fast, write_bits_fallback, from_slice_bulk_zerocopy, bulk_convert_to_u64) and the statistics fields'],
  'assumptions': ['usize is 64 bits',
                  'agreement of model and code (incl. raw memory contents after every UintVecMin0 history; every get/get2/get_block result of SortedUintVec; size/bits/min_val/every get of ZipIntVec) is established on the generated cases only',
-                 'BMI2 PEXT with a contiguous mask and BEXTR are modelled by shift-and-mask; the AVX2 add in get_block by a wrapping add'],
- 'level_text': 'Machine-checked Coq theorems about bit-exact Gallina models of three of the packed containers. UintVecMin0: for every width <= 58, every '
+                 'BMI2 PEXT with a contiguous mask and BEXTR are modelled by shift-and-mask; the AVX2 add in get_block by a wrapping add',
+                 'IntVec: products of a length and a bit width do not wrap usize (they cannot for a slice that fits in memory); the f64 comparison of estimated '
+                 'compression ratios in analyze_optimal_strategy is a parameter of the model (the theorems hold for every comparison function; the replayed cases use '
+                 'the comparison of the numerators); fast_copy is a byte copy; agreement of model and code (len, data+index byte size, every replayed get) on the generated cases only',
+                 'UintVector: the f64 comparisons `ratio < 0.8` and `run_ratio > 0.5` are parameters of the model (the theorems hold for every pair of comparison functions; '
+                 'the replayed cases use the exact rational comparisons, which agree with f64 for all sizes below 2^40 bytes); agreement of model and code (len, stats().1 = stored bytes, '
+                 'probes during construction, every replayed get) on the generated cases only'],
+ 'level_text': 'Machine-checked Coq theorems about bit-exact Gallina models of the five packed containers. UintVecMin0: for every width <= 58, every '
                'index and every memory content, a field never straddles the 64-bit load window, in-range reads and writes are defined and stay inside the '
                'allocation, a write reads back and leaves every other element unchanged, bulk build returns every element for all sequences whose range '
-               'fits 58 bits, in-place push_back appends without disturbing earlier elements; refutation witness for widths above 58. ZipIntVec: bulk build '
+               'fits 58 bits, push_back on each of its three paths (in place, more memory, rebuild with wider fields) appends without disturbing earlier elements, so construction by push from new(0, max) returns every element; refutation witness for widths above 58. ZipIntVec: bulk build '
                'returns every element for every sequence of u64 values whose range fits 58 bits (also at the top of the usize range), reads past the end '
-               'are refused. SortedUintVec: for every admissible configuration (block sizes 16..256, offset widths 8..32, sample widths 16..57 and 64, both '
+               'are refused; construction by new(0, min, max) + push_back gives the same observations. SortedUintVec: for every admissible configuration (block sizes 16..256, offset widths 8..32, sample widths 16..57 and 64, both '
                'bit-extraction paths) and every sequence, the builder succeeds exactly when the input is sorted, every in-block delta fits offset_width and '
                'every block minimum fits sample_width; then the length is preserved, get(i) returns element i, get2 is two gets, get_block returns the '
-               'block followed by zeros, and every index or block index past the end is refused. The models are tied to the code by replaying generated '
-               'cases in Coq and comparing every output. IntVec<T> (8 types x 3 constructors) and UintVector are decided by a boundary-biased differential '
-               'oracle plus an enumerated small universe only, labelled S-only.',
+               'block followed by zeros, and every index or block index past the end is refused. IntVec<T>: both bit writers OR the masked value in at '
+               'the offset on each of their paths and the reader returns the field for every width 1..64 (8-byte window up to 58 bits, ninth byte above); '
+               'whatever strategy is used (raw, min-max, block based with any block size and a short last block, delta, uniform delta) with parameters that '
+               'cover the input, on either compression path, for u8..u64 and i8..i64, the build succeeds, the length is kept, element i reads back with its '
+               'sign and reads past the end return None; the widths computed by the small-dataset, fast and full analyses (global range, per-block maximum '
+               'offset, largest block minimum, maximum adjacent delta, uniform delta) always cover; hence from_slice / from_slice_bulk / '
+               'from_slice_bulk_simd return every element for every input. UintVector: with whatever strategy covers the input (raw, min-max bit '
+               'packing, run length) the stored fields read back; build_from returns every element of every u32 sequence whatever the two floating-point '
+               'comparisons of its analysis answer; construction by push (pending values, recompression of everything at every 64th push) succeeds and '
+               'equals bulk construction at every index. UintVecMin0::build_from_u32 / build_from_i32 store every element of every u32 / i32 sequence '
+               '(i32::MIN together with i32::MAX included). The models are tied to the code by replaying generated '
+               'cases in Coq and comparing every output.',
  'level_note': 'Trusted: Coq kernel + vm_compute; hand-written models; harness generators and shadow-Vec oracle. Unsafe pointer reads are modelled as index '
                'arithmetic with an explicit out-of-bounds outcome; growing byte vectors as (length, number).',
  'technique': 'Coq proof by bit extensionality (N.testbit) + packed-field-array invariant through the builder loops + induction over build; '
-              'model/implementation differential check on generated cases by vm_compute; differential oracle for S-only cells',
- 'explanation': 'Unbounded theorems for UintVecMin0, ZipIntVec and SortedUintVec; differential oracle for IntVec and UintVector.'}
+              'model/implementation differential check on generated cases by vm_compute; direct shadow-Vec oracle on every cell',
+ 'explanation': 'Unbounded theorems for UintVecMin0 (incl. the typed builders), ZipIntVec, SortedUintVec, IntVec<T> and UintVector.'}
